@@ -41,6 +41,16 @@ pub fn urldecode_20_bytes(value: &str) -> anyhow::Result<[u8; 20]> {
                 .next()
                 .with_context(|| "missing second urldecode char in pair")?;
 
+            // Casting a non-ascii char to u8 truncates it, possibly to a
+            // valid hex digit
+            if !(first.is_ascii() && second.is_ascii()) {
+                return Err(anyhow::anyhow!(
+                    "non-ascii character in urlencoded pair: {:#?}{:#?}",
+                    first,
+                    second
+                ));
+            }
+
             let hex = [first as u8, second as u8];
 
             hex::decode_to_slice(hex, &mut out_arr[i..i + 1])
